@@ -3,8 +3,9 @@
    <path> = n x y ...; locations as their enum value 0..4):
    LINES rect <paths>                 -> OK <paths> | ERR oob|fuel     model of RectClipLines(rect, paths)
    LINEST rect <path>                 -> OK npieces {n {x y tagkind tagidx}} model with provenance tags (one polyline)
-   LSPEC rect <path> <paths>          -> shape within order length  (0/1 each)  C09 verdict for output <paths>
-   LLEN rect <path> <paths>           -> strict edge crossings outlen (2^-20 fixed point)
+   LSPEC rect <path> <paths>          -> shape within order length (0/1 each: C09 verdict for output <paths>)
+                                         strict edge crossings outlen (exact inside length not along / along a side,
+                                         boundary crossings, output length; lengths in 2^-20 fixed point)
    LOC rect x y                       -> res loc
    GSI p1 p2 p3 p4 ip                 -> res x y         (5 points)
    GSIP p1 p2 p3 p4 ip                -> res x y         GetSegmentIntersectPt
@@ -27,6 +28,7 @@ let show_loc l = string_of_z (loc_idx l)
 let show_err = function ErrOOB -> "ERR oob" | ErrFuel -> "ERR fuel"
 let rec int_of_nat = function O -> 0 | S n -> 1 + int_of_nat n
 let show_src = function SV i -> "0 " ^ string_of_int (int_of_nat i) | SI i -> "1 " ^ string_of_int (int_of_nat i)
+                      | SX i -> "3 " ^ string_of_int (int_of_nat i)
                       | SC k -> "2 " ^ string_of_int (int_of_nat k)
 let show_tpath p = String.concat " " (string_of_int (List.length p) :: List.map (fun (v, s) -> show_pt v ^ " " ^ show_src s) p)
 
@@ -40,10 +42,8 @@ let handle t =
        | Err e -> show_err e)
   | "LSPEC" -> let r = read_rect t in let p = read_path t in let o = read_paths t in
       let (((a, b), c), d) = lines_spec r p o in
-      String.concat " " (List.map show_bool [a; b; c; d])
-  | "LLEN" -> let r = read_rect t in let p = read_path t in let o = read_paths t in
-      let ((ls, le), c) = lines_inside_fx r p in
-      String.concat " " (List.map string_of_z [ls; le; c; out_len_fx o])
+      let ((ls, le), cr) = lines_inside_fx r p in
+      String.concat " " (List.map show_bool [a; b; c; d] @ List.map string_of_z [ls; le; cr; out_len_fx o])
   | "LOC" -> let r = read_rect t in let p = read_pt t in
       let (b, l) = get_location r p in show_bool b ^ " " ^ show_loc l
   | "GSI" -> let p1 = read_pt t in let p2 = read_pt t in let p3 = read_pt t in let p4 = read_pt t in let ip = read_pt t in
